@@ -1,6 +1,7 @@
 import Driver.Util
 import ProcSim.Model.Sim
 import ProcSim.Spec.Sim
+import ProcSim.Spec.Queue
 /-!
 Op `"sim"`:
 ```
@@ -131,9 +132,96 @@ def handleSim (j : Json) : Except String Json := do
         [("C08", Json.str "an exception other than the stall error escaped")])
       return Json.mkObj [("wf", wf), ("model", modelJ), ("k", k), ("o", o), ("stats", statsJson cm)]
 
+/-! Op `"queue"` (property C19): the harness explores the implementation's state graph of one register queue.
+```
+{"op":"queue","reqs":[[isWrite,owner]…],
+ "states":[{"q":[[isWrite,[owner…]]…] (front first), "can":[[isWrite,owner,true|false|null(=exception)]…],
+            "deq":[[owner, index of the next state | -1 (=exception)]…]} …]}     states[0] = the queue just built
+```
+answer `{"k":{"C19":bool},"o":{"C19":null|"clause"},"detail":…}` -/
+
+def parseGroup (j : Json) : Except String Group := do
+  match ← asArr j with
+  | [w, os] =>
+    let os ← (← asArr os).mapM (·.getNat?)
+    return { wr := ← w.getBool?, owners := isort (fun a b => decide (a ≤ b)) os }
+  | _ => throw "bad group"
+
+def parseQueue (j : Json) : Except String Queue := do (← asArr j).mapM parseGroup
+
+def canonQ (q : Queue) : Queue := q.map (fun g => { g with owners := isort (fun a b => decide (a ≤ b)) g.owners })
+
+structure QState where
+  q : Queue
+  can : List (Bool × Nat × Option Bool)
+  deq : List (Nat × Option Nat)
+
+def parseQState (j : Json) : Except String QState := do
+  let q ← parseQueue (← j.getObjVal? "q")
+  let can ← (← getArr j "can").mapM (fun e => do
+    match ← asArr e with
+    | [w, o, r] => return (← w.getBool?, ← o.getNat?, (r.getBool?).toOption)
+    | _ => throw "bad can")
+  let deq ← (← getArr j "deq").mapM (fun e => do
+    match ← asArr e with
+    | [o, n] =>
+      let n ← n.getInt?
+      return (← o.getNat?, if n < 0 then none else some n.toNat)
+    | _ => throw "bad deq")
+  return { q, can, deq }
+
+def firstBad (l : List (String × Bool)) : Option String := (l.find? (fun x => !x.2)).map (·.1)
+
+def handleQueue (j : Json) : Except String Json := do
+  let reqs ← (← getArr j "reqs").mapM (fun e => do
+    match ← asArr e with
+    | [w, o] => return ((← w.getBool?, ← o.getNat?) : Spec.Req)
+    | _ => throw "bad req")
+  let states ← (← getArr j "states").mapM parseQState
+  let sArr := states.toArray
+  let po := Spec.programOrder reqs
+  let q0 := (states.head?.map (·.q)).getD []
+  -- K: the model reproduces every observation of the implementation
+  let kBuild := canonQ (Queue.build reqs) == q0
+  let kCan := states.all (fun st => st.can.all (fun (w, o, r) => st.q.canAccess w o == r))
+  let kDeq := states.all (fun st => st.deq.all (fun (o, nx) =>
+    match st.q.dequeue o, nx with
+    | none, none => true
+    | some q', some k => (match sArr[k]? with | some st' => canonQ q' == st'.q | none => false)
+    | _, _ => false))
+  -- O: the implementation's observations satisfy the request-level specification
+  let o := firstBad [
+    ("the built queue represents exactly the registered requests", !po || Spec.abs q0 == reqs),
+    ("every reachable queue is well-formed", states.all (fun st => Spec.wfq st.q)),
+    ("pending requests are an order-preserving sublist of the registered ones",
+      !po || states.all (fun st => (Spec.abs st.q).isSublist reqs)),
+    ("a request can be served exactly as the registration-order rule says",
+      states.all (fun st => st.can.all (fun (w, o, r) => Spec.canServe (Spec.abs st.q) w o == r))),
+    ("removing a servable request never fails and removes exactly that request",
+      states.all (fun st => st.deq.all (fun (o, nx) =>
+        match Spec.removeSpec (Spec.abs st.q) o, nx with
+        | none, none => true
+        | some pend, some k => (match sArr[k]? with | some st' => Spec.abs st'.q == pend | none => false)
+        | _, _ => false))),
+    ("a non-empty queue always has a servable request (removals end with an empty queue)",
+      states.all (fun st => st.q.isEmpty || st.deq.any (fun (_, nx) => nx.isSome))),
+    ("a granted write after its owner's own read can be removed right after the read",
+      states.all (fun st => st.can.all (fun (w, o, r) =>
+        !(w && r == some true && st.can.any (fun (w2, o2, r2) => !w2 && o2 == o && r2 == some true)) ||
+        (match st.deq.find? (fun d => d.1 == o) with
+         | some (_, some k) => (match sArr[k]? with
+            | some st' => st'.deq.any (fun d => d.1 == o && d.2.isSome)
+            | none => false)
+         | _ => false))))]
+  return Json.mkObj [("k", Json.mkObj [("C19", kBuild && kCan && kDeq)]),
+    ("o", Json.mkObj [("C19", match o with | none => Json.null | some s => Json.str s)]),
+    ("detail", Json.mkObj [("build", kBuild), ("can", kCan), ("deq", kDeq), ("programOrder", po),
+                            ("states", jnat states.length)])]
+
 def handle : Driver.Handler := fun op j =>
   match op with
   | "sim" => some (handleSim j)
+  | "queue" => some (handleQueue j)
   | _ => none
 
 end Driver.SimOps
